@@ -1,0 +1,119 @@
+// Copyright 2026 Dolthub, Inc.
+//
+// Licensed under the Apache License, Version 2.0 (the "License");
+// you may not use this file except in compliance with the License.
+// You may obtain a copy of the License at
+//
+//     http://www.apache.org/licenses/LICENSE-2.0
+//
+// Unless required by applicable law or agreed to in writing, software
+// distributed under the License is distributed on an "AS IS" BASIS,
+// WITHOUT WARRANTIES OR CONDITIONS OF ANY KIND, either express or implied.
+// See the License for the specific language governing permissions and
+// limitations under the License.
+
+//go:build verif
+
+package remotesrv
+
+import (
+	"crypto/cipher"
+	"encoding/base64"
+	"net/url"
+	"strconv"
+	"strings"
+	"time"
+
+	"github.com/dolthub/dolt/go/store/hash"
+)
+
+// Verification vocabulary (ghost code, compiled only with -tags verif). The
+// bodies are executable so that contracts can also be run concretely.
+
+func verif_old[T any](x T) T { return x }
+
+// verif_loopold(e) in a loop invariant: the value of e when the loop was entered (contracts only).
+func verif_loopold[T any](x T) T { return x }
+
+func verif_res[T any](i int) T { var z T; return z }
+
+func verif_implies(a, b bool) bool { return !a || b }
+
+func verif_forall(lo, hi int, f func(int) bool) bool {
+	for k := lo; k < hi; k++ {
+		if !f(k) {
+			return false
+		}
+	}
+	return true
+}
+
+func verif_exists(lo, hi int, f func(int) bool) bool {
+	for k := lo; k < hi; k++ {
+		if f(k) {
+			return true
+		}
+	}
+	return false
+}
+
+func verif_assert(b bool) {
+	if !b {
+		panic("verif_assert failed")
+	}
+}
+
+func verif_assume(b bool) {}
+
+// verif_sameslice(a, b): a and b are the same window of the same backing array (contracts only; the executable
+// body cannot tell two empty windows apart).
+func verif_sameslice[T any](a, b []T) bool {
+	return len(a) == len(b) && (len(a) == 0 || &a[0] == &b[0])
+}
+
+// verif_rangeidx stands for the number of completed iterations of the enclosing range loop (contracts only).
+func verif_rangeidx() int { return 0 }
+
+// verif_arg stands for the i-th argument of the call a call-site assertion is attached to (contracts only).
+func verif_arg[T any](i int) T { var z T; return z }
+
+// ---- ghost state and spec functions (C39)
+
+var verif_ghost struct {
+	uMs       int64  // argument of the most recent time.UnixMilli
+	uBefore   bool   // result of the most recent Time.Before ...
+	uBeforeMs int64  // ... whose argument was UnixMilli(this)
+	uAfter    bool   // result of the most recent Time.After ...
+	uAfterMs  int64  // ... whose argument was UnixMilli(this)
+	uDecPrev  []byte // result of the base64 decode before the most recent one (the nonce)
+	uDecLast  []byte // result of the most recent base64 decode (the sealed request)
+	uOpened   bool   // the AEAD opened the sealed request under the key (authentic)
+	uUnsealOK bool   // Sealer.Unseal accepted the request URL
+	hParseOK  bool   // the last path component parsed as a table-file hash
+	hNameOK   bool   // validateFileName accepted the upload's file name
+}
+
+func verif_parseint(s string) int64 { return 0 }
+
+func verif_hasprefix(s, p string) bool { return strings.HasPrefix(s, p) }
+func verif_hassuffix(s, p string) bool { return strings.HasSuffix(s, p) }
+func verif_contains(s, p string) bool  { return strings.Contains(s, p) }
+
+func verif_x_ParseInt(s string, base int, bitSize int) (n int64, err error) {
+	return strconv.ParseInt(s, base, bitSize)
+}
+func verif_x_UnixMilli(ms int64) (t time.Time)         { return time.UnixMilli(ms) }
+func verif_x_Before(t time.Time, u time.Time) (b bool) { return t.Before(u) }
+func verif_x_After(t time.Time, u time.Time) (b bool)  { return t.After(u) }
+func verif_x_aead_Open(a cipher.AEAD, dst, nonce, ciphertext, additionalData []byte) (pt []byte, err error) {
+	return a.Open(dst, nonce, ciphertext, additionalData)
+}
+func verif_x_Unseal(s Sealer, u *url.URL) (r *url.URL, err error) { return s.Unseal(u) }
+func verif_x_HasPrefix(s, p string) (b bool)                      { return strings.HasPrefix(s, p) }
+func verif_x_HasSuffix(s, p string) (b bool)                      { return strings.HasSuffix(s, p) }
+func verif_x_Contains(s, p string) (b bool)                       { return strings.Contains(s, p) }
+func verif_x_MaybeParse(s string) (h hash.Hash, ok bool)          { return hash.MaybeParse(s) }
+
+func verif_x_DecodeString(enc *base64.Encoding, s string) (b []byte, err error) {
+	return enc.DecodeString(s)
+}
